@@ -21,6 +21,7 @@ def check(ctx):
     ctx.rule("C14.D1", "every path of run to the execution call passes the dry_run test on its false arm; the true arm returns; before the test only the stale check reaches user code")
     ctx.rule("C14.D2", "engine modules never call read/write on a store themselves; get_modified_time is called only in the stale-check callback; bundled stores' get_modified_time performs no file mutation")
     ctx.rule("C14.D3", "read/write calls created by the transformation take the function from the store's class and the store as a literal argument; nothing closes over the registry")
+    ctx.rule("C14.D5", "planning keeps its verdicts per run: nothing reachable from run stores into the registry or its entries (two concurrent runs / a dry run and a real run cannot exchange staleness verdicts)")
     ctx.rule("C14.D4", "the pair returned on the dry-run arm and the pair handed to execution are the same reaching definitions")
     ctx.assume("equality of event logs of 'dry run then execute' and 'real run' follows from D4 plus determinism and is not observed")
     er = E.discover(m)
@@ -143,8 +144,11 @@ def check(ctx):
             if not bad:
                 ctx.ob("C14.D2", f"{cls.name}.get_modified_time", True, loc(gm), "no file mutation reachable from the modified-time query")
     ctx.floor("C14.D2", "bundled get_modified_time implementations", n_gm, 4)
+    from .c13 import owned_uses
+    n_reg = owned_uses(ctx, "C14.D5", m, run, "registry", "registry", {}, [])
+    ctx.floor("C14.D5", "uses of the caller's registry during planning", n_reg, 5)
     # ---------------------------------------------------------------- D3
-    W.rule_edge_effect_table(ctx, "C14.D3", rr)
+    ctx.run(W.rule_edge_effect_table, "C14.D3", rr)
     rw = rr.rewrite
     regp = [p for p in rr.apply.params if "registry" in p]
     for f in [rw] + rw.all_nested():
